@@ -1,6 +1,6 @@
-From V Require Import lib.Base lib.Sx model.Channel.
+From V Require Import lib.Base lib.Sx model.Channel model.ChannelS.
 Require Extraction. Require Import ExtrOcamlBasic.
 Definition all_bytes : list byte :=
   map (fun n => match Byte.of_N (N.of_nat n) with Some b => b | None => x00 end) (seq 0 256).
-Definition run := run_channel.
+Definition run := run_channel_all.
 Extraction "model.ml" all_bytes run.
